@@ -341,6 +341,13 @@ def _encoding_identity(ctx):
     from .c06 import r6_encoding_identity
     r6_encoding_identity(ctx)              # the constructor keeps a column whose encoding EQUALS the declared one: equality must mean the same alphabet
 
+
+def _round7_pandas_and_index(ctx):
+    from ..idioms import check_pandas_labels, check_index_casts
+    mods = ["bionumpy.string_array", BD, "bionumpy.bnpdataclass.pandas_adaptor", "bionumpy.encoded_array", "bionumpy.bnpdataclass.bnpdataclassfunction"]
+    check_pandas_labels(ctx, mods, "C19-R11")
+    check_index_casts(ctx, ["bionumpy.string_array", BD, "bionumpy.encoded_array"], "C19-R11")
+
 RULES = [
     ("C19-R6", r6_retarget_guard),
     ("C19-R1", r1_constructor_exhaustive),
@@ -354,4 +361,5 @@ RULES = [
     ("C19-R8", _lazy_tables),
     ("C19-R9", _mutable_defaults),
     ("C19-R10", _encoding_identity),
+    ("C19-R11", _round7_pandas_and_index),
 ]
